@@ -7,6 +7,12 @@ ids = [json.loads(l)["id"] for l in open(os.path.join(V, "properties.jsonl"))]
 TRUST = ("Trusted: Verus+Z3, rustc front end, the vx extractor (rewrite rules R0-R19 logged per run), the prelude "
          "stand-ins for dependencies (listed per run in evidence.trusted_base). ")
 
+SMNOTE = (TRUST + "State-machine group: the embedder traits (Storage, PolicyEngine, Installer, Timer, TimeSource, MetricsReporter, HttpRequest, "
+          "AppSet, Cupv2Handler) are stand-ins whose answers are unconstrained and whose interactions are recorded in ghost logs; Rc<Mutex<_>> is "
+          "modelled as uniquely owned; RequestBuilder is an opaque type carrying the builder view; pinned fragments (install join block, "
+          "app_responses closure, `.all()`), std iterator-adapter semantics of four outlined fragments and the derive expansions are assumed; "
+          "select!/run/wait_for_reboot (T4) are not under contract unless stated. ")
+
 CLAIMS = {
  "C19": dict(
    text="Deductive proof (Verus) over the real functions of time.rs / time/complex.rs, extracted mechanically on every run: "
@@ -19,6 +25,61 @@ CLAIMS = {
         "combinator wrappers (FutureExt::map / boxed) around the two verified conversion functions and are not themselves under contract.",
    technique="contract-based deductive verification (Verus) of mechanically extracted functions",
    design="4/C19"),
+ "C02": dict(
+   text="Proof (Verus) of the real do_omaha_request_and_update_context, ping_omaha, report_omaha_event_and_update_context and perform_update_check: "
+        "with a CUP handler configured a response the handler rejects yields CupValidation iff rejected, and on that path context, event log and storage log are unchanged "
+        "(no poll interval, no server-response event, no announcement); a failed ping counts exactly one failure and leaves schedule and app set untouched; "
+        "a failed event report pushes exactly one OmahaEventLost and changes nothing else. For all responses, handlers, storage results.",
+   note=SMNOTE + "The handler's verdict is an uninterpreted predicate here (its meaning is C01). The 'no retry after validation failure' and start_update_check clauses are claimed only as far as the units listed in the evidence.",
+   technique="contract-based deductive verification (Verus) with ghost interaction logs", design="4/C02"),
+ "C04": dict(
+   text="Proof (Verus) of the real perform_update_check (475 lines), yield_state, make_app_responses, make_not_updated_result: the sequence of announced states equals a path table "
+        "determined by the result and the policy log (error / no update / deferred / denied / installing / installation error), the server response is announced iff authenticated and parsed, "
+        "the no-update path is taken iff the announced response offers no update, and the result lists the response's apps in order with cohort and day.",
+   note=SMNOTE + "Per-app action alignment inside the app_responses closure is a pinned (assumed) fragment; Idle/WaitingForReboot emission in run (T4) is not under contract.",
+   technique="contract-based deductive verification (Verus) with ghost interaction logs", design="4/C04"),
+ "C05": dict(
+   text="Proof (Verus): every ping and every event report carries exactly the parameters it was given (ping: scheduled-task parameters, all apps); the builder view of each wire message equals the builder's.",
+   note=SMNOTE + "Gating clauses of run/wait_for_reboot (T4) and App::valid are not yet under contract; claim restricted to request parameters within a check.",
+   technique="contract-based deductive verification (Verus) with ghost interaction logs", design="4/C05"),
+ "C06": dict(
+   text="Proof (Verus): randomize's jitter window and dependence on a fresh RNG draw, is_user classification, one exchange per request (none on construction failure), transport error only without response, "
+        "HttpStatus error iff non-2xx, pings and event reports sent at most once; the attempt loop of perform_update_check is bounded by 3 with verified safety obligations.",
+   note=SMNOTE + "The full retry-condition table of the attempt loop is not yet a named obligation.",
+   technique="contract-based deductive verification (Verus) with ghost interaction logs", design="4/C06"),
+ "C07": dict(
+   text="Proof (Verus) of the real do_omaha_request_and_update_context, Context::persist/load: after every authenticated response (any status) the poll interval equals min(N,86400)s for a decimal-u64 header and is absent otherwise; "
+        "every change is announced once and persisted+committed before returning; no response leaves it unchanged; persist/load round trip at microsecond precision (lemma).",
+   note=SMNOTE + "Header text parsing uses std's u64::from_str as an uninterpreted dec_u64 (leading '+' accepted by std is a documented reading).",
+   technique="contract-based deductive verification (Verus) with ghost interaction logs", design="4/C07"),
+ "C08": dict(
+   text="Proof (Verus): failure counter (+1 saturating on failure, reset on success, ping included), persist_data = context block, app block, commit; Context::persist/load exact key encoding; "
+        "round-trip lemma and crash-prefix lemma over the storage log (a crash at any point exposes exactly the last completed commit).",
+   note=SMNOTE + "Assumes the documented Storage contract (writes cached until an atomic commit; reads return what was last written). last_update_time rules of start_update_check pending.",
+   technique="contract-based deductive verification (Verus) with ghost interaction logs", design="4/C08"),
+ "C09": dict(
+   text="Proof (Verus): successful ping updates the app set to apps_updated(old, responses) (field-wise cohort merge, user counting replaced), failed ping leaves it unchanged; make_app_responses carries cohort and day; UserCounting::from.",
+   note=SMNOTE + "AppSetExt::update_from_omaha / App::load/persist real bodies are verified in the app_set group when present; here their contracts are assumed.",
+   technique="contract-based deductive verification (Verus) with ghost interaction logs", design="4/C09"),
+ "C10": dict(
+   text="Proof (Verus) of report_omaha_event_and_update_context: exactly the apps with an entry in next_versions get the event, with previous version = app version and next version = offered manifest version, "
+        "session id kept, fresh request id, sent at most once, lost event counted exactly once iff delivery failed; Event::success/error shapes; manifest version accessor.",
+   note=SMNOTE + "Per-path choice of events inside perform_update_check and the zip alignment are not yet named obligations.",
+   technique="contract-based deductive verification (Verus) with ghost interaction logs", design="4/C10"),
+ "C12": dict(
+   text="Proof (Verus) of update_next_update_time: policy asked with current apps/schedule/state, answer stored as next_update_time, one ScheduleChange announced.",
+   note=SMNOTE + "make_wait_to_next_check and the select sites are not yet under contract.",
+   technique="contract-based deductive verification (Verus) with ghost interaction logs", design="4/C12"),
+ "C14": dict(
+   text="Proof (Verus): absence of panics/overflow (arithmetic, unwrap, index, callee preconditions) in every verified state-machine unit including the 475-line perform_update_check, Context::load on arbitrary stored integers, "
+        "the time conversions, with all environment answers and all storage results unconstrained.",
+   note=SMNOTE + "Dependencies (serde_json, http, hyper) and termination of run are out of scope; pinned fragments are assumed panic-free under their stated preconditions.",
+   technique="contract-based deductive verification (Verus): safety obligations of every unit", design="4/C14"),
+ "C18": dict(
+   text="Proof (Verus) of record_update_first_seen_time (same plan: stored time, no write; new plan: id, time, commit, with exact failure handling), report_attempts_to_successful_install (count = stored+1 saturating, reported every call, reset on success), "
+        "report_waited_for_reboot_duration (metric value and exactly-once, nothing on inconsistent clocks).",
+   note=SMNOTE + "Finish-time/target-version persistence ordering and the run prefix are not yet named obligations.",
+   technique="contract-based deductive verification (Verus) with ghost interaction logs", design="4/C18"),
 }
 
 NA = {
